@@ -640,6 +640,7 @@ func (s *Subscriber) distributeEvents() {
 				}
 				return
 			}
+			verifhook.Point("dist.forward", nil)
 			// Send update to all change notification channels.
 			for _, ch := range outEventsChans {
 				ch <- event
